@@ -115,6 +115,12 @@ def run_case(case) -> Result:
             rid -= 1
         elif kind == "id0":
             rid = 0
+        elif kind == "id+2^32":
+            rid += 2 ** 32
+        elif kind == "id-2^32":
+            rid -= 2 ** 32
+        elif kind == "id+k*2^32":
+            rid += pert["value"] * 2 ** 32
         elif kind == "idrand":
             rid = pert["value"]
         elif kind == "idprev":
@@ -284,7 +290,7 @@ def cases(draw):
     if proto["v"] != "1":
         ops += ["bulkget", "bulkwalk", "bulktable"]
     op = draw(st.sampled_from(ops))
-    kinds = ["none", "none", "none", "id+1", "id-1", "id0", "idrand", "idprev"]
+    kinds = ["none", "none", "none", "id+1", "id-1", "id0", "idrand", "idprev", "id+2^32", "id-2^32", "id+k*2^32"]
     if proto["v"] != "3":
         kinds += ["community_other", "community_empty", "version_other"]
     else:
@@ -294,7 +300,9 @@ def cases(draw):
     if kind not in ("none", "disco_msgid"):
         pert["at"] = draw(st.integers(0, 3)) if op in WALKS else 0
     if kind == "idrand":
-        pert["value"] = draw(st.integers(-2 ** 31, 2 ** 31 - 1))
+        pert["value"] = draw(st.one_of(st.integers(-2 ** 31, 2 ** 31 - 1), st.integers(-2 ** 63, 2 ** 63 - 1)))
+    if kind == "id+k*2^32":
+        pert["value"] = draw(st.sampled_from([2, 3, -2, 255, 2 ** 20, 2 ** 31]))
     if kind == "disco_msgid":
         pert["delta"] = draw(st.sampled_from([1, -1, 4711]))
     case = dict(proto=proto, op=op, perturb=pert,
